@@ -2297,6 +2297,34 @@ class Generator:
             {'op': 'drain'}, {'op': 'master_cycle'}])
         return {'op': 'presence_down', 'name': name}
 
+    def g_frozen_then_presence_lost(self, world):
+        """A server holding instances is frozen (nothing marked), later it
+        loses its presence: from then on it is down, and its instances go
+        after their retention time like those of any down server."""
+        stored = world.stored_placement()
+        servers = sorted({s for recs in stored.values() for s, _d in recs
+                          if world.zk.nodes.get(z.path.server_presence(s))})
+        if not servers:
+            return None
+        name = self.rng.choice(servers)
+        proid = self.rng.choice(self.config['proids'])
+        manifest = {'memory': '256M', 'cpu': '10%', 'disk': '256M',
+                    'affinity': '%s.job' % proid}
+        limits = self.config['aff_limits'].get(manifest['affinity'])
+        if limits:
+            manifest['affinity_limits'] = limits
+        self.follow.extend([
+            {'op': 'drain'}, {'op': 'master_cycle'},
+            {'op': 'presence_down', 'name': name},
+            {'op': 'drain'}, {'op': 'master_cycle'},
+            {'op': 'advance', 'dt': self.rng.choice([31.0, 301.0, 3601.0])},
+            # (the master computes a cycle only when something happened)
+            {'op': 'app_create', 'app_id': '%s.job' % proid,
+             'manifest': manifest, 'count': 1},
+            {'op': 'drain'}, {'op': 'master_cycle'}])
+        return {'op': 'srv_state', 'name': name, 'state': 'frozen',
+                'apps': None}
+
     def g_stale_record_failover(self, world):
         """C11: an instance is deleted and the master fails over before it
         hears of it: the stale record is dropped, every other recorded
@@ -2695,7 +2723,7 @@ OP_WEIGHTS = [
     ('identity_evict_restore', 3), ('drop_giants', 0),
     ('delete_then_apps_event', 3), ('move_partition', 3),
     ('lease_squeeze_failover', 3), ('flap_then_place', 5),
-    ('resize_mixed', 3),
+    ('resize_mixed', 3), ('frozen_then_presence_lost', 3),
 ]
 
 
